@@ -1090,3 +1090,86 @@ func lemmaSliceConcat(seq Sequence, c int) Sequence {
 //@   loop 1: invariant 0 <= left && left <= k && lower == loOf(mod, pre(len(rr))) - pre(left) && (left > 0 ==> pre(left) < loOf(mod, pre(len(rr)))) && (left < k ==> lower <= slenOf(rr[left]))
 //@   loop 1: invariant 0 <= right && right <= k && upper == hiOf(mod, pre(len(rr))) - pre(right) && (right > 0 ==> pre(right) < hiOf(mod, pre(len(rr)))) && (right < k ==> upper <= slenOf(rr[right]))
 //@   loop 1: decreases len(rr) - k
+
+// ---------------------------------------------------------------------------
+// feature.go: filter constructors (C19).  Each contract is on the function literal that the
+// constructor returns (Name$k = k-th literal in the function), over its captured variables.
+
+//@ func Not$1(f Feature) (r bool)
+//@   prop C19
+//@   ensures r == !filter(f)
+//@ func And$1(f Feature) (r bool)
+//@   prop C19
+//@   ensures r <==> (forall k in 0..len(filters): filters[k](f))
+//@   loop 1: invariant forall k in 0..idx1: filters[k](f)
+//@   loop 1: decreases len(filters) - idx1
+//@ func Or$1(f Feature) (r bool)
+//@   prop C19
+//@   ensures any: forall k in 0..len(filters): filters[k](f) ==> r
+//@   ensures none: (forall k in 0..len(filters): !filters[k](f)) ==> !r
+//@   loop 1: invariant forall k in 0..idx1: !filters[k](f)
+//@   loop 1: decreases len(filters) - idx1
+//@ func Key$1(f Feature) (r bool)
+//@   prop C19
+//@   ensures r == (f.Key == key)
+//@ func Within$1(f Feature) (r bool)
+//@   prop C19 C03
+//@   ensures r == locWithin(f.Loc, lower, upper)
+//@ func Overlap$1(f Feature) (r bool)
+//@   prop C19 C03
+//@   ensures r == locOverlap(f.Loc, lower, upper)
+
+// props.go: a qualifier is a name followed by its values.
+//@ func (props Props) Index(key string) (r int)
+//@   prop C19
+//@   requires forall k in 0..len(props): len(props[k]) >= 1
+//@   ensures -1 <= r && r < len(props)
+//@   ensures r >= 0 ==> props[r][0] == key && (forall k in 0..r: props[k][0] != key)
+//@   ensures r == -1 ==> (forall k in 0..len(props): props[k][0] != key)
+//@   assigns nothing
+//@   loop 1: invariant forall k in 0..i: props[k][0] != key
+//@   loop 1: decreases len(props) - i
+//@ func (props Props) Has(name string) (r bool)
+//@   prop C19
+//@   requires forall k in 0..len(props): len(props[k]) >= 1
+//@   ensures r <==> (exists k in 0..len(props): props[k][0] == name)
+//@   assigns nothing
+//@ func (props Props) Get(key string) (vv []string)
+//@   prop C19
+//@   requires forall k in 0..len(props): len(props[k]) >= 1
+//@   ensures found: forall k in 0..len(props): props[k][0] == key && (forall j in 0..k: props[j][0] != key) ==> sameslice(vv, props[k][1:])
+//@   ensures missing: (forall k in 0..len(props): props[k][0] != key) ==> len(vv) == 0
+//@   assigns nothing
+
+// Qualifier(name, query): "some value of that qualifier matches" / "some value of any qualifier matches".
+//@ func Qualifier$1(f Feature) (r bool)
+//@   prop C19
+//@   requires forall k in 0..len(f.Props): len(f.Props[k]) >= 1
+//@   ensures sound: (forall i in 0..len(f.Props): forall j in 1..len(f.Props[i]): !reMatch(re, f.Props[i][j])) ==> !r
+//@   ensures complete: forall i in 0..len(f.Props): forall j in 1..len(f.Props[i]): reMatch(re, f.Props[i][j]) ==> r
+//@   loop 1: invariant forall i in 0..idx1: forall j in 1..len(f.Props[i]): !reMatch(re, f.Props[i][j])
+//@   loop 1: decreases len(f.Props) - idx1
+//@   loop 2: invariant forall j in 1..idx2+1: !reMatch(re, vv[j])
+//@   loop 2: decreases len(vv) - 1 - idx2
+
+//@ func Qualifier$2(f Feature) (r bool)
+//@   prop C19
+//@   requires forall k in 0..len(f.Props): len(f.Props[k]) >= 1
+//@   ensures r <==> (exists k in 0..len(f.Props): f.Props[k][0] == name)
+
+// Named clause: some value of the (first) qualifier of that name matches.
+//@ func Qualifier$3(f Feature) (r bool)
+//@   prop C19
+//@   requires forall k in 0..len(f.Props): len(f.Props[k]) >= 1
+//@   ensures absent: (forall k in 0..len(f.Props): f.Props[k][0] != name) ==> !r
+//@   ensures sound: forall k in 0..len(f.Props): f.Props[k][0] == name && (forall j in 0..k: f.Props[j][0] != name) && (forall j in 1..len(f.Props[k]): !reMatch(re, f.Props[k][j])) ==> !r
+//@   ensures complete: forall k in 0..len(f.Props): f.Props[k][0] == name && (forall j in 0..k: f.Props[j][0] != name) ==> (forall j in 1..len(f.Props[k]): reMatch(re, f.Props[k][j]) ==> r)
+//@   loop 1: invariant forall j in 0..idx1: !reMatch(re, vv[j])
+//@   loop 1: decreases len(vv) - idx1
+
+// Splitting a selector at the first '/' that is not escaped: indices stay in range, the scan
+// terminates.
+//@ func shiftSelector(s string) (head string, tail string)
+//@   prop C19 C07
+//@   loop 1: invariant 0 <= i && i <= len(s)
+//@   loop 1: decreases len(s) - i
